@@ -19,6 +19,7 @@ type Clause struct {
 	Withdrawn bool     // not assumed at call sites (known finding, or a helper clause that no longer holds)
 	Line      string   // file:line
 	Local     bool     // "proves": checked on the body, never assumed by callers
+	Assumed   bool     // "assumed": assumed by callers, NOT checked on the body (an assumption, listed in the evidence)
 }
 
 type LoopSpec struct {
@@ -416,6 +417,14 @@ func (sp *Specs) loadSpecFile(path, pkg string) error {
 			}
 			cl.Star = word == "requires*"
 			c.Requires = append(c.Requires, cl)
+		case "assumed":
+			// assumed label: e -- a postcondition callers may rely on that the body is not checked against
+			cl, err := parseClause(rest, l.pos, true)
+			if err != nil {
+				return fail(l, "%v", err)
+			}
+			cl.Assumed = true
+			c.Ensures = append(c.Ensures, cl)
 		case "ensures", "ensures*", "proves", "proves*":
 			// proves: a postcondition checked on the body that callers do not assume
 			cl, err := parseClause(rest, l.pos, true)
